@@ -462,11 +462,13 @@ def intervalFields (months days ms : Int) : List Int :=
   [Int.tdiv months 12, Int.tmod months 12, days,
    Int.tdiv (Int.tdiv (Int.tdiv ms 1000) 60) 60,
    Int.tmod (Int.tdiv (Int.tdiv ms 1000) 60) 60,
-   Int.tmod (Int.tdiv ms 1000) 60]
+   Int.tmod (Int.tdiv ms 1000) 60,
+   Int.tmod ms 1000]       -- milliseconds (printed since fix 2c03e9c)
 
 def unitNames : List Bytes :=
   [[121, 101, 97, 114], [109, 111, 110, 116, 104], [100, 97, 121], [104, 111, 117, 114],
-   [109, 105, 110, 117, 116, 101], [115, 101, 99, 111, 110, 100]]
+   [109, 105, 110, 117, 116, 101], [115, 101, 99, 111, 110, 100],
+   [109, 105, 108, 108, 105, 115, 101, 99, 111, 110, 100]]
 
 /-- tokens `<n> <unit>[s]` of the non-zero fields -/
 def intervalTokens : List Int → List Bytes → List Bytes
@@ -501,6 +503,8 @@ def unitIndex (t : Bytes) : Option Nat :=
   else if t = [104, 111, 117, 114] ∨ t = [104, 111, 117, 114, 115] then some 3
   else if t = [109, 105, 110, 117, 116, 101] ∨ t = [109, 105, 110, 117, 116, 101, 115] then some 4
   else if t = [115, 101, 99, 111, 110, 100] ∨ t = [115, 101, 99, 111, 110, 100, 115] then some 5
+  else if t = [109, 105, 108, 108, 105, 115, 101, 99, 111, 110, 100] ∨
+      t = [109, 105, 108, 108, 105, 115, 101, 99, 111, 110, 100, 115] then some 6
   else none
 
 /-- the token loop of `Interval::from_str`: fields, pending number -/
@@ -519,12 +523,12 @@ def inI32 (v : Int) : Bool := i32Lo ≤ v && v ≤ i32Hi
 
 /-- `Interval::from_str`; the final i32 arithmetic panics on overflow (debug build) -/
 def parseInterval (s : Bytes) : Out (Int × Int × Int) :=
-  match intervalLoop (tokenize s []) [0, 0, 0, 0, 0, 0] none with
-  | .ok [y, mo, d, h, mi, se] =>
+  match intervalLoop (tokenize s []) [0, 0, 0, 0, 0, 0, 0] none with
+  | .ok [y, mo, d, h, mi, se, ml] =>
     if inI32 (y * 12) && inI32 (y * 12 + mo) && inI32 (h * 60) && inI32 (h * 60 + mi) &&
        inI32 ((h * 60 + mi) * 60) && inI32 ((h * 60 + mi) * 60 + se) &&
-       inI32 (((h * 60 + mi) * 60 + se) * 1000)
-    then .ok (y * 12 + mo, d, ((h * 60 + mi) * 60 + se) * 1000)
+       inI32 (((h * 60 + mi) * 60 + se) * 1000) && inI32 (((h * 60 + mi) * 60 + se) * 1000 + ml)
+    then .ok (y * 12 + mo, d, ((h * 60 + mi) * 60 + se) * 1000 + ml)
     else .panic
   | .ok _ => .err
   | .err => .err
